@@ -52,6 +52,11 @@ NA = {
 
 # id -> (category, text, note, technique, design_ref)
 CLAIMED = {
+ "C48": ("exploration",
+         "Histories of 2..14 library(files) operations (file_exists, directory_exists, file_size, directory_files, make_directory, make_directory_path, delete_file, delete_directory, rename_file, file_copy, path_canonical, path_segments, ill-typed calls) over 8 names (ASCII, with a space, accented, CJK, nested two levels) and the scratch directory itself, each operation its own query, with an external actor (the harness through std::fs) writing files, making directories, removing and replacing entries behind Prolog's back before one operation in three. The real directory is read back through std::fs before and after every operation; an in-memory tree model refreshed from it predicts whether the predicate may succeed and what the directory must look like afterwards (names, kinds, file contents); values are compared with the OS (file length, directory listing as a set, std::fs::canonicalize, split/join of path segments).",
+         "Where the documentation leaves error versus failure open only 'does not succeed and changes nothing' is asserted; renaming/copying directories or onto directories and the size reported for a directory are not asserted. Symbolic links and permissions are not exercised.",
+         "deterministic simulation: seeded operation histories against the real file system with a seeded external actor between operations; in-memory tree model + std::fs read-back as oracle",
+         "DESIGN.md §3 C48"),
  "C19": ("exploration",
          "A payload is written to a scratch file through 1..10 seeded output operations (put_char, put_code, put_byte, write, format ~s/~a, nl, flush_output; 20 characters incl. newline and 2/3/4-byte ones, all byte values in binary mode, 1 case in 12 straddling the reader's 8 KiB refill) and read back through 3..25 seeded operations (get_char, peek_char, get_code, peek_code, get_byte, peek_byte, get_n_chars, get_line_to_chars, at_end_of_stream, position and end_of_stream properties, position save and set_stream_position) under each eof_action. The read history runs twice: with full reads and with short reads injected below InputFileStream::read from a seeded schedule (max chunk 1..4096 bytes) - the legal behaviour of read(2) the tests never produce. Oracle: the file holds exactly the bytes written; a byte-buffer model with a cursor gives every result (peek == next get and consumes nothing; at_end_of_stream <=> next get is end-of-file; P == bytes consumed, L == newlines consumed; a restored position replays the same reads; eof_action error/eof_code honoured, reset: no error); the two read runs agree item by item.",
          "File streams (text and binary) only; the in-memory user_input/user_output streams of the embedding API are not driven by this check. For end_of_stream(E) only E = past <=> an end-of-file was returned and E = at => no data left are asserted. get_n_chars/get_line_to_chars on a stream already past its end are not compared (not ISO predicates).",
